@@ -988,3 +988,44 @@ func init() {
 		return Tuple{int64(len(b)), Iface{}}
 	})
 }
+
+func init() {
+	// types/encoding_helper.go uses reflect only to ask "typed nil?" and "empty?"
+	const tp = "github.com/tendermint/tendermint/types."
+	reg(tp+"isTypedNil", func(m *Machine, fr *frame, a []Value) Value {
+		itf := a[0].(Iface)
+		switch v := itf.V.(type) {
+		case *Value:
+			return v == nil
+		case Slice:
+			return v == nil
+		case *Map:
+			return v == nil
+		case *Chan:
+			return v == nil
+		case nil:
+			if _, isFunc := itf.T.Underlying().(*types.Signature); isFunc {
+				return true
+			}
+		}
+		return false
+	})
+	reg(tp+"isEmpty", func(m *Machine, fr *frame, a []Value) Value {
+		itf := a[0].(Iface)
+		switch v := itf.V.(type) {
+		case string:
+			return len(v) == 0
+		case *SymStr:
+			return len(v.B) == 0
+		case Slice:
+			return len(v) == 0
+		case Array:
+			return len(v) == 0
+		case *Map:
+			return v == nil || v.live == 0
+		case *Chan:
+			return v == nil || len(v.buf) == 0
+		}
+		return false
+	})
+}
